@@ -240,7 +240,7 @@ def run(ctx):
     # negative controls
     rnd = random.Random(ctx.seed + 7)
     tried = rejected = 0
-    idx = [j for j, c in enumerate(cases) if len(c['snaps']) >= 3]
+    idx = [j for j, c in enumerate(cases) if len(c['snaps']) >= 3 and compare(c, obs[j]) is None]
     for j in rnd.sample(idx, min(30, len(idx))):
         o = json.loads(json.dumps(obs[j]))
         m = tried % 4
